@@ -294,7 +294,8 @@ def model_lines(case, out):
     tr = toks(d["trace"])
     ans = ",".join(r for _, r, _ in tr) or "."
     steps = stepf(tr, d["out"], d.get("ents", "-")) or "."
-    lines = ["cur %s a=%s s=%s ca=- cs=-" % (script, ans, steps)]
+    # the caller's view runs against a kernel table: the numbers open at entry, the numbers the operation was given
+    lines = ["K cur %s a=%s s=%s t=%s own=%s" % (script, ans, steps, d["tab"], d["own"])]
     ch = [t for t in toks(d.get("child", "-")) if t[0] not in ("exit", "exit_group", "returned")]
     if d.get("child", "-") != "-":
         fk = [i for i, t in enumerate(tr) if t[0] == "fork"]
@@ -309,8 +310,9 @@ def expect_from_impl(case, out):
     d = parse(out)
     tr = toks(d["trace"])
     o = "ok" if d["out"] in ("ok", "none") else ("err" if d["out"].startswith("err") else d["out"])
-    exp = ["out=%s trace=%s handed=%s leaked=%s dangling=%s foreign=%s dbl=%s unused=0"
-           % (o, ",".join(canon_names(scen_of(case), [n for n, _, _ in tr])) or "-", d["handed"], d["leaked"], d["dangling"], d["foreign"], d["dbl"])]
+    exp = ["out=%s trace=%s handed=%s leaked=%s dangling=%s foreign=%s dbl=%s unused=0 nums=%s fin=%s"
+           % (o, ",".join(canon_names(scen_of(case), [n for n, _, _ in tr])) or "-", d["handed"], d["leaked"], d["dangling"], d["foreign"], d["dbl"],
+              d["nums"], d["fin"])]
     if d.get("child", "-") != "-":
         ch = toks(d["child"])
         names = [n for n, _, _ in ch if n not in ("exit", "exit_group", "returned")]
@@ -384,7 +386,10 @@ def run(ctx):
                 "system calls of its fault-free run x errno in {EINTR,EAGAIN,EMFILE,ENOMEM,EACCES,EIO} + call-specific "
                 "{EINPROGRESS; ENOENT,EEXIST} + forced values (0, short) for read/write/ppoll/getdents64/copy_file_range, then a second "
                 "fault at every call of the NEW path a first fault opened (thorough: a third), and for spawn every call of the forked "
-                "child x {EBADF,EACCES,EINTR}; distinct_nontrivial = distinct (scenario, failed call name(s), errno class, outcome) "
+                "child x {EBADF,EACCES,EINTR}; ALL OF THIS once with the ordinary descriptor table and once for each non-empty subset of "
+                "{0,1,2} free at entry (7 entry states: the operation's creations land on the standard numbers), plus every scenario with "
+                "the table nearly full (RLIMIT_NOFILE leaves k = 0..#creations-1 numbers: a real EMFILE at each creation); "
+                "distinct_nontrivial = distinct (scenario, entry state, failed call name(s), errno class, outcome) "
                 "observed on the implementation" % len(SCEN))
     ctx.assumptions += [
         "the scripts of Model/FdScript.lean describe the operations' control flow (checked on every run: call names, outcome and "
@@ -395,7 +400,15 @@ def run(ctx):
         "Stdio::RawFd(fd) is treated as transferring ownership of fd to spawn (it is wrapped in an OwnedFd and closed by the caller-side "
         "of spawn); see the known finding about the paths where it is not",
         "io_uring set-up/teardown is checked by C18; the recursion of remove_all is unrolled to depth 3 with the inductive step as a summary",
-        "descriptor tables are read with fcntl(F_GETFD) over 0..255",
+        "descriptor tables are read with fcntl(F_GETFD) over 0..255; the harness keeps its own channels on numbers >= 100 (result line: "
+        "a dup of stdout at >= 240, never fd 1) and closes the chosen subset of {0,1,2} after the scenario is set up, right before the "
+        "operation; a witness dup of every foreign descriptor is compared with its number afterwards by kcmp(KCMP_FILE) (identity of the "
+        "open file description, not the number)",
+        "OBSERVED, not proved: the kernel hands a creation the lowest free number (the model's `lowestFree`); checked on every case: the "
+        "numbers the real creations received and the real table after the operation equal what `execK` predicts from the entry table. "
+        "That the code's behaviour does not depend on the numbers it receives is checked by running every case under every entry state",
+        "entry states explored: which of 0,1,2 are free; nearly full (real EMFILE).  Not explored: a table with holes above 2, "
+        "RLIMIT_NOFILE combined with free standard numbers",
     ]
     ctx.trusted += ["harness/c12 casekit (sc-shim handler executing/forcing/recording every system call of the operation, per process)"]
     ok = C.lean_prove(ctx, "TinyVerif.Props.C12", drivers=["drv_c12"])
@@ -489,7 +502,9 @@ def run(ctx):
     # malformed lines are rejected by both sides
     bad = ["nope -", "file_open x", "file_open 1:q4", "file_open", "file_open@ -", "file_open@3 -", "file_open@10 -", "file_open@lim -"]
     rc, bo, _ = C.run_filter([exe], bad)
-    rc, bm, _ = C.run_filter(drv, ["cur nope a=. s=. ca=- cs=-", "cur file_open a=x s=. ca=- cs=-", "zzz file_open a=. s=. ca=- cs=-", "cur"])
+    rc, bm, _ = C.run_filter(drv, ["cur nope a=. s=. ca=- cs=-", "cur file_open a=x s=. ca=- cs=-", "zzz file_open a=. s=. ca=- cs=-", "cur",
+                                   "K cur file_open a=v0 s=1 t=1,x own=-", "K cur file_open a=v0 s=1 t=1,2 own=7", "K cur tcp_inprogress_try a=e111,v0 s=. t=1,2 own=-",
+                                   "K cur file_open a=v0 s=1 t=1,2"])
     ctx.evaluations += len(bad)
     if any(x != "bad-op" for x in bo + bm):
         ctx.violation({"kind": "malformed-accepted"}, {"harness": bo, "driver": bm}, no_input=True)
